@@ -271,10 +271,15 @@ def search_failing_input(prop, exes, seed, tier_dir):
             for k in range(8):
                 s = seed * 100 + 17 + k
                 od = os.path.join(tier_dir, "search-%s-%d" % (h["name"], k))
-                jobs.append((h, s, ex.submit(run_harness, exe, s, "thorough" if k == 0 else "quick", od, min(h.get("timeout_thorough", 1500), 900))))
-        for h, s, fut in jobs:
+                jobs.append((h, s, od, ex.submit(run_harness, exe, s, "thorough" if k == 0 else "quick", od, min(h.get("timeout_thorough", 1500), 900))))
+        for h, s, od, fut in jobs:
             rc, out, dt = fut.result()
             fails = [l[5:] for l in out.split("\n") if l.startswith("FAIL ")]
+            fp = os.path.join(od, "fail.txt")
+            if os.path.exists(fp):
+                fails = [l for l in open(fp, errors="replace").read().split("\n") if l.strip()] or fails
+            if not fails and rc in (0, 1):
+                shutil.rmtree(od, ignore_errors=True)
             if fails or rc not in (0, 1):
                 found.append({"harness": h["name"], "seed": s, "rc": rc, "fails": fails[:10], "output_tail": out[-1500:] if not fails else ""})
     return found
@@ -435,6 +440,15 @@ def check(pid, tier, seed):
         "leanchecker": leanchecker,
         "log": log,
     }
+    # keep the build directory small: suite files of runs without any difference are not needed again
+    for r in results:
+        if not r["fails"] and not r["diffs"] and not r["crash"]:
+            od = os.path.join(tier_dir, "out-%s-%d" % (r["harness"], r["seed"]))
+            for f in glob.glob(os.path.join(od, "*.ops")) + glob.glob(os.path.join(od, "*.impl")) + glob.glob(os.path.join(od, "*.model")):
+                try:
+                    os.remove(f)
+                except OSError:
+                    pass
     wall = time.time() - t0
     write_evidence(prop, tier, seed, wall, cov, len(violations), prop.get("assumptions", registry.ASSUMPTIONS))
 
